@@ -16,6 +16,47 @@ static IO_YIELD: AtomicBool = AtomicBool::new(false);
 /// when set, clock_gettime answers from the simulated clock (scenario knob "clock")
 static SIM_CLOCK: AtomicBool = AtomicBool::new(false);
 
+/// standard output of the code under test: 0 works; otherwise every write to it fails with the errno
+/// stored here once `STDOUT_AFTER` more writes have succeeded (the reader of `rws | tee` went away,
+/// the volume of the redirected log is full, the terminal was hung up) - scenario knob "stdout_gone"
+static STDOUT_ERRNO: std::sync::atomic::AtomicI32 = std::sync::atomic::AtomicI32::new(0);
+static STDOUT_AFTER: std::sync::atomic::AtomicI64 = std::sync::atomic::AtomicI64::new(0);
+pub static STDOUT_FAILED: std::sync::atomic::AtomicU64 = std::sync::atomic::AtomicU64::new(0);
+
+pub fn stdout_gone(errno: i32, after: i64) {
+    STDOUT_AFTER.store(after, Ordering::SeqCst);
+    STDOUT_ERRNO.store(errno, Ordering::SeqCst);
+}
+
+unsafe fn stdout_fault(fd: c_int) -> bool {
+    if fd != 1 {
+        return false;
+    }
+    let e = STDOUT_ERRNO.load(Ordering::Relaxed);
+    if e == 0 || STDOUT_AFTER.fetch_sub(1, Ordering::Relaxed) > 0 {
+        return false;
+    }
+    STDOUT_FAILED.fetch_add(1, Ordering::Relaxed);
+    *libc::__errno_location() = e;
+    true
+}
+
+#[no_mangle]
+pub unsafe extern "C" fn write(fd: c_int, buf: *const libc::c_void, count: usize) -> isize {
+    if stdout_fault(fd) {
+        return -1;
+    }
+    libc::syscall(libc::SYS_write, fd, buf, count) as isize
+}
+
+#[no_mangle]
+pub unsafe extern "C" fn writev(fd: c_int, iov: *const libc::iovec, n: c_int) -> isize {
+    if stdout_fault(fd) {
+        return -1;
+    }
+    libc::syscall(libc::SYS_writev, fd, iov, n) as isize
+}
+
 pub fn sim_clock(on: bool) {
     SIM_CLOCK.store(on, Ordering::SeqCst);
 }
